@@ -86,7 +86,7 @@ func rang(left, right string) (string, error) {
 	}
 
 	stripped := right[1 : len(right)-1]
-	rangeSlice := strings.Split(stripped, ",")
+	rangeSlice := splitBounds(stripped)
 
 	if len(rangeSlice) != 2 {
 		return "", fmt.Errorf("the BETWEEN operator needs a two item list in the right hand side, have %s", right)
@@ -180,7 +180,7 @@ func rangParam(left, right string, params []any) (string, error) {
 	}
 
 	stripped := right[1 : len(right)-1]
-	rangeSlice := strings.Split(stripped, ",")
+	rangeSlice := splitBounds(stripped)
 
 	if len(rangeSlice) != 2 {
 		return "", fmt.Errorf("the BETWEEN operator needs a two item list in the right hand side, have %s", right)
@@ -365,4 +365,22 @@ func formatFloat(f float64) string {
 		return s + "0"
 	}
 	return s
+}
+
+// splitBounds splits the serialized bounds of a range on the commas that are not inside a
+// quoted string, so a bound like 'x,y' stays in one piece.
+func splitBounds(in string) []string {
+	parts := []string{}
+	quoted := false
+	start := 0
+	for i := 0; i < len(in); i++ {
+		switch {
+		case in[i] == '\'':
+			quoted = !quoted
+		case in[i] == ',' && !quoted:
+			parts = append(parts, in[start:i])
+			start = i + 1
+		}
+	}
+	return append(parts, in[start:])
 }
